@@ -98,13 +98,21 @@ def _layout_of(inst):
     return "".join("m" if o["type"] == "mapper" else ("o" if o.get("override") else "f") for o in inst["objs"])
 
 
-def _k_of(value, fresh, H):
-    """alpha: value = fresh + k*H ?  -> k, or -99"""
+_SOLVED = ("reconstruction", "mapped_reconstructed_data", "regularization_term", "log_det_curvature_reg_matrix_term")
+_COND = 1.0  # condition number of F + H of the behaviour being executed (set by _reference)
+
+
+def _k_of(value, fresh, H, solved=False):
+    """alpha: value = fresh + k*H ?  -> k, or -99.  'The same ... as computing afresh' is decided to numerical precision: 1e-9 of
+    the largest entry, and for the quantities that go through the solve of (F + H) s = D that bound times cond(F + H) / 1e4 where
+    the system is ill conditioned (two orders of summation of the same numbers legitimately differ by eps * cond there)"""
     v = np.asarray(value, dtype=float)
     f = np.asarray(fresh, dtype=float)
     if v.shape != f.shape:
         return -99
     tol = 1e-9 * max(1.0, float(np.abs(f).max()) if f.size else 1.0)
+    if solved:
+        tol *= max(1.0, _COND / 1e4)
     if np.allclose(v, f, rtol=0, atol=tol):
         return 0
     if H is not None and np.asarray(H).shape == v.shape:
@@ -169,6 +177,13 @@ def _reference(aa, ds, objs, st):
     Hm = fresh["regularization_matrix"]
     ref2 = aa.Inversion(dataset=ds, linear_obj_list=objs, settings=st())
     fresh["curvature_reg_matrix"] = np.array(ref2.curvature_reg_matrix).copy()
+    global _COND
+    try:
+        _COND = float(np.linalg.cond(fresh["curvature_reg_matrix"]))
+    except Exception:  # noqa: BLE001
+        _COND = 1.0
+    if not np.isfinite(_COND):
+        _COND = 1e16
     for q in ("reconstruction", "mapped_reconstructed_data", "regularization_term", "log_det_curvature_reg_matrix_term",
               "log_det_regularization_matrix_term"):
         fresh[q] = np.array(getattr(ref2, q), dtype=float).copy()
@@ -235,7 +250,7 @@ def _execute2(beh, inst, formalism, reuse_objects, ref_formalism, aa, single, mk
                  "sec_changed": [], "cached": [], "filled": filled}
             try:
                 val = getattr(inv, q)
-                r["k"] = _k_of(val, fresh[q], Hm if q in ("curvature_matrix", "curvature_reg_matrix") else None)
+                r["k"] = _k_of(val, fresh[q], Hm if q in ("curvature_matrix", "curvature_reg_matrix") else None, solved=q in _SOLVED)
             except Exception as e:
                 r["raised"] = True
                 r["err"] = f"{type(e).__name__}: {str(e)[:80]}"
@@ -409,7 +424,8 @@ def run(ctx):
     rejects, drift = validate(ctx, episodes, "C15")
     ctx.note(f"{len(jobs)} behaviours replayed on real inversions ({nsimjobs} simulated by TLC, {len(jobs) - nsimjobs - nsys} enumerated "
              f"(subset, make-up) instances, {nsys} systematic); model drift records (cache set / slot contents differ, informational): {drift}")
-    ctx.assumptions = ["values are compared with a fresh inversion on identical inputs within 1e-9 relative; curvature-like values are "
+    ctx.assumptions = ["'the same as computing afresh' is decided to numerical precision: 1e-9 of the largest entry; for quantities behind the solve of (F+H)s = D the bound grows with cond(F+H)/1e4 on ill-conditioned systems (different memory layouts of equal preloads legitimately change the order of summation)",
+                       "values are compared with a fresh inversion on identical inputs within 1e-9 relative; curvature-like values are "
                        "abstracted to the multiplicity k in fresh + k*H",
                        "every preloaded buffer (arrays, values of the dictionaries, w-tilde tables) is fingerprinted (SHA-256) before/after every read",
                        "every mapper is regularised (an unregularised mapper makes the mapper diagonal blocks of the two formalisms differ by the "
